@@ -153,7 +153,9 @@ PairWmCbIn(S, e) ==
   ELSE IF S.b[e].in >= S.b[e].rhi
        THEN [(IF S.b[e].rs = {} THEN PairDisable(S, e, {"R"}) ELSE S) EXCEPT !.b[e].rs = @ \cup {"WM"}]
        ELSE LET S1 == [S EXCEPT !.b[e].rs = @ \ {"WM"}]
-            IN IF S1.b[e].rs = {} /\ "R" \in S1.b[e].en THEN FixR(S1, e) ELSE S1
+            IN IF S1.b[e].rs = {} /\ "R" \in S1.b[e].en
+               THEN (IF S.b[e].rs # {} THEN FixR(S1, e) ELSE IF S1.b[e].tor > 0 THEN Dv(S1, "wm_tmo") ELSE S1)
+               ELSE S1
 
 Talk(S, src, dst) == "W" \in S.b[src].en /\ "R" \in S.b[dst].en /\ S.b[dst].rs = {} /\ S.b[src].out > 0
 
@@ -164,9 +166,9 @@ PairTransfer(S, src, dst, ign) ==
       so == S.b[src].out
       skip == hi > 0 /\ ds >= hi /\ ~ign
       n == IF hi > 0 /\ ds < hi THEN hi - ds ELSE so               \* the code's n
-      \* property level: a flush ignores the watermark altogether
-      moved == IF ign THEN so ELSE IF hi > 0 THEN Min(hi - ds, so) ELSE so
-      S0 == IF ign /\ hi > 0 /\ ds < hi /\ so > hi - ds THEN Dv(S, "pair_flush_partial") ELSE S
+      \* deviation FlushStopsAtHighWatermark: below the mark even a flush fills only up to it
+      moved == IF hi > 0 THEN (IF ds < hi THEN Min(hi - ds, so) ELSE IF ign THEN so ELSE 0) ELSE so
+      S0 == S
       S1 == [S0 EXCEPT !.b[src].out = @ - moved, !.b[dst].in = @ + moved,
                        !.b[dst].cap = IF ign THEN Max(@, ds + moved) ELSE @]
       S2 == IF moved > 0 THEN PairWmCbIn(S1, dst) ELSE S1
@@ -199,7 +201,9 @@ PairFlush(S, e, dirs, mode) ==
   ELSE LET S1 == IF "R" \in dirs THEN PairTransfer(S, P(e), e, TRUE) ELSE S
            S2 == IF "W" \in dirs THEN PairTransfer(S1, e, P(e), TRUE) ELSE S1
            f == {"EOF"} \cup (IF "R" \in dirs THEN {"WR"} ELSE {}) \cup (IF "W" \in dirs THEN {"RD"} ELSE {})
-           S3 == IF mode = 2 THEN EvD([S2 EXCEPT !.b[e].fin = @ \/ "W" \in dirs], P(e), f) ELSE S2
+           \* a finishing flush that leaves output behind reports EOF before the data: known finding
+           S2b == IF mode = 2 /\ "W" \in dirs /\ S2.b[e].out > 0 THEN Dv(S2, "pair_eof_before_data") ELSE S2
+           S3 == IF mode = 2 THEN EvD([S2b EXCEPT !.b[e].fin = @ \/ "W" \in dirs], P(e), f) ELSE S2b
        IN [s |-> S3, r |-> 0]
 
 ----------------------------------------------------------------------------
@@ -255,7 +259,9 @@ FiltWmCb(S) ==
   ELSE IF S.b[3].in >= S.b[3].rhi
        THEN [(IF S.b[3].rs = {} THEN FiltDisable(S, {"R"}) ELSE S) EXCEPT !.b[3].rs = @ \cup {"WM"}]
        ELSE LET S1 == [S EXCEPT !.b[3].rs = @ \ {"WM"}]
-            IN IF S1.b[3].rs = {} /\ "R" \in S1.b[3].en THEN FiltEnable(S1, {"R"}) ELSE S1
+            IN IF S1.b[3].rs = {} /\ "R" \in S1.b[3].en
+               THEN (IF S.b[3].rs # {} THEN FiltEnable(S1, {"R"}) ELSE IF S1.b[3].tor > 0 THEN Dv(S1, "wm_tmo") ELSE S1)
+               ELSE S1
 
 (* be_filter_process_input; returns [s, p] (p = processed_any) *)
 RECURSIVE FiltInLoop(_, _, _)
@@ -315,8 +321,13 @@ BeDisable(S, e, evs) ==
   ELSE PairDisable(S, e, evs)
 
 SuspendR(S, e, f) == [(IF S.b[e].rs = {} THEN BeDisable(S, e, {"R"}) ELSE S) EXCEPT !.b[e].rs = @ \cup {f}]
+(* the implementation calls be_ops->enable even when nothing was suspended, which restarts the
+   read timeout although no transfer happened (trigger "wm_tmo"); the property-level model keeps it *)
 UnsuspendR(S, e, f) == LET S1 == [S EXCEPT !.b[e].rs = @ \ {f}]
-                       IN IF S1.b[e].rs = {} /\ "R" \in S1.b[e].en THEN BeEnable(S1, e, {"R"}) ELSE S1
+                       IN IF S1.b[e].rs = {} /\ "R" \in S1.b[e].en
+                          THEN (IF S.b[e].rs # {} THEN BeEnable(S1, e, {"R"})
+                                ELSE IF S1.b[e].tor > 0 THEN Dv(S1, "wm_tmo") ELSE S1)
+                          ELSE S1
 
 (* callbacks on e's input buffer after the application removed d > 0 units *)
 InputDrained(S, e) ==
@@ -425,7 +436,9 @@ UserCb(S, e, k, f) ==
                       !.b[e].eofd = @ \/ "EOF" \in f,
                       !.eofbad = @ \/ ("EOF" \in f /\ "RD" \in f /\ Undelivered(S, e) > 0),
                       !.conns = IF "CONN" \in f THEN @ + 1 ELSE @,
-                      !.connbad = @ \/ (k \in {"r", "w"} /\ (B.conn = "ing" \/ "CONN" \in B.ep)) ]
+                      !.connbad = @ \/ (k \in {"r", "w"} /\ (B.conn = "ing" \/ "CONN" \in B.ep)),
+                      \* bufferevent_readcb does not look at `connecting`: known finding
+                      !.dv = IF k \in {"r", "w"} /\ (B.conn = "ing" \/ "CONN" \in B.ep) THEN @ \cup {"sock_cb_before_connected"} ELSE @ ]
   IN IF guard THEN OpDisable([S0 EXCEPT !.b[e].cbs = FALSE], e, {"R", "W"})
      ELSE LET S1 == IF d > 0 THEN InputDrained([S0 EXCEPT !.b[e].in = @ - d, !.b[e].rd = @ + d,
                                                           !.b[e].cap = Max(B.rhi, Min(@, B.in - d))], e)
@@ -516,7 +529,7 @@ RECURSIVE TimeoutProcess(_, _)
 TimeoutProcess(S, x) ==
   IF DueSet(S, x) = {} THEN S
   ELSE LET p == CHOOSE q \in DueSet(S, x) : \A r \in DueSet(S, x) :
-                     Dl(S, q) < Dl(S, r) \/ (Dl(S, q) = Dl(S, r) /\ (q[1] < r[1] \/ (q[1] = r[1] /\ q[2] <= r[2])))
+                     Dl(S, q) < Dl(S, r) \/ (Dl(S, q) = Dl(S, r) /\ (q[1] < r[1] \/ (q[1] = r[1] /\ (q[2] = "rt" \/ r[2] = "wt"))))
            e == p[1]
            S1 == IF p[2] = "rt"
                  THEN (IF IsSock(e) THEN Enq(SockDelR(S, e), "rt", e) ELSE Enq([S EXCEPT !.b[e].rdl = -1], "rt", e))
@@ -535,9 +548,15 @@ ProcessQ(S, x) ==
   IF S.aq[x] = <<>> THEN S
   ELSE LET it == Head(S.aq[x]) IN ProcessQ(Handle([S EXCEPT !.aq[x] = Tail(@)], it), x)
 
-LoopOp(S, x, t) ==
-  LET S0 == [S EXCEPT !.now = @ + t, !.log = <<>>, !.ncb = 0]
-  IN ProcessQ(TimeoutProcess(Dispatch(S0, x), x), x)
+(* with EVLOOP_NONBLOCK the loop keeps iterating (poll with zero timeout, expire timers, run
+   callbacks) until an iteration finds nothing to run *)
+RECURSIVE LoopIter(_, _, _)
+LoopIter(S, x, k) ==
+  LET S1 == TimeoutProcess(Dispatch(S, x), x)
+  IN IF S1.aq[x] = <<>> THEN S1
+     ELSE IF k = 0 THEN [S1 EXCEPT !.open = TRUE]
+     ELSE LoopIter(ProcessQ(S1, x), x, k - 1)
+LoopOp(S, x, t) == LoopIter([S EXCEPT !.now = @ + t, !.log = <<>>, !.ncb = 0], x, 24)
 
 ----------------------------------------------------------------------------
 (* observation after every step *)
@@ -554,7 +573,7 @@ Has(a) == a \in Acts
 DirSets == {{"R"}, {"W"}, {"R", "W"}}
 Step(S1, op, r) ==
   /\ st' = S1
-  /\ hist' = Append(hist, op @@ [o |-> Obs(S1, r)])
+  /\ hist' = Append(hist, op @@ [o |-> Obs(S1, r), kf |-> Cardinality(S1.dv)])
 
 Quiet(S) == \A x \in Bases : S.aq[x] = <<>>
 IoReady(S) == Kind = "sock" /\ \E e \in {1, 2} : S.b[e].alive /\
@@ -620,7 +639,8 @@ InFlight(S, s, d) == IF Kind = "filt" THEN (IF s = 3 THEN S.b[3].out + S.b[1].ou
 Conserved == \A p \in AppPairs : (st.b[p[1]].alive /\ st.b[p[2]].alive /\ st.b[p[1]].sref >= 0) =>
                 st.b[p[1]].wr = InFlight(st, p[1], p[2]) + st.b[p[2]].rd
 (* C17: EOF only after all data, at most once *)
-EofAfterAllData == ~st.eofbad
+Known == st.dv # {}          \* a known-finding trigger was met: the model left the property's ground
+EofAfterAllData == Known \/ ~st.eofbad
 EofAtMostOnce == \A e \in Eps : st.eofs[e] <= 1
 (* C18 *)
 ReadCbOnlyAboveLow == ~st.lowbad
@@ -629,11 +649,11 @@ InputNeverAboveHigh == \A e \in App : (st.b[e].alive /\ st.b[e].rhi > 0) => st.b
 NoStall == (Kind = "pair" /\ Quiet(st)) => \A e \in {1, 2} : ~(st.b[e].lnk /\ Talk(st, e, P(e)))
 (* C19 *)
 NothingAfterFree == ~st.deadcb
-ConnectedOnceAndFirst == st.conns <= 1 /\ ~st.connbad
+ConnectedOnceAndFirst == st.conns <= 1 /\ (Known \/ ~st.connbad)
 (* C20: a timeout only fires for a direction that should be timing, and at rest a
    direction's timer runs iff it should *)
-TimeoutOnlyIfDue == ~st.tmobad
-TimerIff == \A e \in App : (st.b[e].alive /\ ~IsSock(e)) =>
+TimeoutOnlyIfDue == Known \/ ~st.tmobad
+TimerIff == Known \/ \A e \in App : (st.b[e].alive /\ ~IsSock(e)) =>
                /\ (ShouldR(st, e) <=> (st.b[e].rdl >= 0 \/ InQ(st, "rt", e)))
                /\ (ShouldW(st, e) <=> (st.b[e].wdl >= 0 \/ InQ(st, "wt", e)))
 TimerNotLate == \A e \in App : (st.b[e].alive /\ st.b[e].rdl >= 0) => st.b[e].rdl <= st.b[e].last + st.b[e].tor
@@ -648,10 +668,8 @@ Inv == TypeOK /\ Conserved /\ EofAfterAllData /\ EofAtMostOnce /\ ReadCbOnlyAbov
 Deadlines(S) == {<<e, k>> \in Eps \X {"r", "w"} : IF k = "r" THEN S.b[e].rdl >= 0 ELSE S.b[e].wdl >= 0}
 DlOf(S, p) == IF p[2] = "r" THEN S.b[p[1]].rdl ELSE S.b[p[1]].wdl
 NoTies == \A p, q \in Deadlines(st) : (p # q /\ Base(p[1]) = Base(q[1])) => DlOf(st, p) # DlOf(st, q)
-(* watermark callbacks restart / re-arm the generic read timeout: keep the combination out of the corpus *)
-WmTmo(S) == \E e \in Eps : ~IsSock(e) /\ S.b[e].rhi > 0 /\ S.b[e].tor > 0
-AvoidKnown == (st.dv \subseteq Allow) /\ ("wm_tmo" \in Allow \/ ~WmTmo(st))
+AvoidKnown == st.dv \subseteq Allow
 GenConstraint == Len(hist) <= D + 4 /\ NoTies /\ ~st.open /\ AvoidKnown
-Emit == (st.closing = 2 * Cardinality(Bases)) => PrintT(ToJson(hist))
+Emit == (st.closing = 2 * Cardinality(Bases) /\ AvoidKnown /\ ~st.open) => PrintT(ToJson(hist))
 StateView == <<st>>
 =============================================================================
